@@ -61,7 +61,8 @@ class Lazy(Machine):
                        "per_element_map", "negative_index", "index_out_of_range", "numpy_index",
                        "depth_ge_4", "interleaved_videos", "truncated_read_raises", "mixed_video_instrumented",
                        "read_folder_backed", "caller_list_mutated_after_use", "fancy_one_shot_iterable", "partial_iteration",
-                       "video_with_large_frames", "equal_but_different_plain_values")
+                       "video_with_large_frames", "equal_but_different_plain_values",
+                       "two_overlapping_iterations_of_one_list", "relative_glob_then_working_directory_changes")
 
     @classmethod
     def swarm(cls, rng, tier):
@@ -695,6 +696,11 @@ class Lazy(Machine):
             return
         if op["rev"] % 3 == 0:
             self._read("reversed", ll, list(reversed(model)), lambda: list(reversed(ll)))
+        elif op["rev"] % 3 == 2 and len(model) <= 6:
+            # two iterations of one list that overlap in time, as over an ordinary list: (x0, x0), (x1, x1), ...
+            self.ctx.probe("two_overlapping_iterations_of_one_list")
+            self._read("iterate_zip_with_itself", ll, [e for e in model for _ in (0, 1)],
+                       lambda: [v for pair in zip(ll, ll) for v in pair])
         else:
             self._read("iterate", ll, list(model), lambda: list(ll))
 
@@ -882,17 +888,37 @@ class Lazy(Machine):
         finally:
             self.fs.install()
         self.folders.append(fo)
+        relative = bool(op["lm"] & 128)
+        where = d
+        if relative:
+            # the pattern is spelled relative to the working directory of the moment; the program moves on to
+            # another directory (which holds files of the same names with other content) before anything is read
+            other = os.path.join(self.root, "elsewhere")
+            self.fs.uninstall()
+            try:
+                os.makedirs(os.path.join(other, "f%d" % fid))
+                for k in range(n):
+                    PILImage.fromarray(np.array([[177, k]], dtype=np.uint8)).save(os.path.join(other, "f%d" % fid, "im%02d.png" % k))
+                    mio.export_landmark_file(PointCloud(np.array([[77.0, float(k)], [7.0, 7.0]])), os.path.join(other, "f%d" % fid, "im%02d.pts" % k))
+            finally:
+                self.fs.install()
+            os.chdir(self.root)
+            where = "f%d" % fid
+            ctx.probe("relative_glob_then_working_directory_changes")
         mark = self._seam_mark()
         try:
             if how == 0:
-                ll = mio.import_images(os.path.join(d, "*.png"), normalize=False, verbose=False)
+                ll = mio.import_images(os.path.join(where, "*.png"), normalize=False, verbose=False)
             elif how == 1:
-                ll = mio.import_images(os.path.join(d, "*.png"), normalize=False, landmark_resolver=None, verbose=False)
+                ll = mio.import_images(os.path.join(where, "*.png"), normalize=False, landmark_resolver=None, verbose=False)
             else:
-                ll = mio.import_landmark_files(os.path.join(d, "*.pts"), verbose=False).map(lambda dct: dct["PTS"])
+                ll = mio.import_landmark_files(os.path.join(where, "*.pts"), verbose=False).map(lambda dct: dct["PTS"])
         except Exception as e:
             ctx.fail("faithful", "glob_import_raised", repr(e))
             return
+        finally:
+            if relative:
+                os.chdir(os.path.join(self.root, "elsewhere"))
         ev, fs, ff = self._seam_since(mark)
         opened = [f for f in fs if f[0] == "open"]
         ctx.require(not opened and not ev and not ff, "lazy", "glob_import_opened_files", lambda: repr(opened[:3]))
